@@ -207,12 +207,12 @@ theorem enc_open_streams_independent (docs : Nat → Option (List (List Byte) ×
   exact ⟨(ownership_inv _ hwf h).1, fun t hf => pipelines_independent_final _ hwf h t hf⟩
 
 /-- non-vacuity: two real documents with bytes behind the header, both opened before either is
-read, the second stream handed the first one's header buffer, drained in either order: reachable,
-finished, 7 arrays (the header buffer shared), logs = solo; and the executable schedule of the
+read, the second stream handed the first one's header buffer (and its goroutine, which runs first,
+that buffer again), drained in either order: reachable, finished, 8 arrays instead of 10, logs = solo; and the executable schedule of the
 driver (`openAllThenDrain`) only produces reachable states -/
 example : (∀ ord ∈ [[0, 1], [1, 0]],
       let s := openAllThenDrain .copy retFixed [(0, docA), (0, docB)] ord
-      s.nArr = 7 ∧ (s.thr 0).prog = [] ∧ (s.thr 1).prog = [] ∧
+      s.nArr = 8 ∧ (s.thr 0).prog = [] ∧ (s.thr 1).prog = [] ∧
       (s.thr 0).log = soloLog (progOfS .copy retFixed 0 docA) ∧ (s.thr 1).log = soloLog (progOfS .copy retFixed 0 docB)) ∧
     (progOfS .copy retFixed 0 docA).length = 43 ∧ openLen retFixed 0 docA = 36 := by decide +kernel
 
